@@ -442,7 +442,7 @@ impl Engine for C07 {
                     11..=14 => "cli-file",
                     15..=18 => "router",
                     _ => {
-                        if tier == Tier::Thorough || index % 8 == 7 {
+                        if tier == Tier::Thorough || index % 4 == 3 || index % 4 == 1 {
                             if w.chance(1, 2) {
                                 "cli-proc-file"
                             } else {
@@ -453,6 +453,12 @@ impl Engine for C07 {
                         }
                     }
                 };
+                // documents whose interesting behaviour is at the process boundary go there often
+                let d = &docs[doc].0;
+                let boundary_doc = std::str::from_utf8(d).is_err() || (d.len() > 1000 && !d.contains(&b'\n'));
+                if boundary_doc && w.chance(1, 2) {
+                    fe = if w.chance(1, 2) { "cli-proc-stdio" } else { "cli-proc-file" };
+                }
                 if !utf8 && (fe == "str" || fe == "router") {
                     fe = "stream";
                 }
